@@ -135,11 +135,25 @@ def other_trees():
     return [a, b]
 
 
-def reused(tf, c):
-    if vid(c) % 3 == 2:
+def reused(tf, c, t=None):
+    """histories for transform objects (two cases in three): the object was applied to other trees before, or to the case's own tree object while
+    that tree had other coordinates and radii (it is perturbed in place, the transform applied, and the original values written back in place);
+    either way the call that is judged must behave like the first call of a fresh object"""
+    k = vid(c) % 3
+    if k == 2:
         for o in other_trees():
             try:
                 tf(o)
             except Exception:        # noqa: BLE001 - only the call on the case's own tree is judged
                 pass
+    elif k == 1 and t is not None and hasattr(t, "ndata"):
+        keep = {key: np.array(t.ndata[key], copy=True) for key in ("x", "y", "z", "r") if key in t.ndata}
+        for j, key in enumerate(keep):
+            t.ndata[key][...] = t.ndata[key] * (2 if key == "r" else 1) + (0 if key == "r" else 3.5 + j)
+        try:
+            tf(t)
+        except Exception:            # noqa: BLE001
+            pass
+        for key, v in keep.items():
+            t.ndata[key][...] = v
     return tf
